@@ -104,6 +104,12 @@ def gen_cases(tier, seed):
     for i in range(8 if tier == "quick" else 200):
         cases.append({"kind": "multiscale_ctx", "D": [4, 8, 8, 16][i % 4], "stages": [2, 2, 3, 3][i % 4], "last": ["ar", "inv_affine"][(i // 4) % 2],
                       "seed": env.subseed(seed, "c08mc", i), "world": "f64", "cost": 2})
+    # CompositeCDFTransform(squash, cdf) is squash -> cdf -> squash^-1 of the OBJECTS it was given: chained by hand from the
+    # caller's own handles after their values changed (a learned temperature after optimiser steps)
+    for i in range(8 if tier == "quick" else 160):
+        cases.append({"kind": "composite_cdf", "squash": ["sigmoid_learned", "sigmoid_learned", "tanh", "sigmoid_fixed"][i % 4],
+                      "cdf": ["rq", "linear", "quadratic", "cubic"][(i // 4) % 4], "D": 1 + i % 3,
+                      "seed": env.subseed(seed, "c08cdf", i), "world": "f64", "cost": 1})
     # multiscale grid
     shapes = [(c,) for c in range(2, 10)]
     shapes += [(a, b) for a in range(1, 6) for b in range(1, 6)]
@@ -208,7 +214,80 @@ def run_multiscale_ctx(case):
     return r.done()
 
 
+def run_composite_cdf(case):
+    from nflows.transforms import nonlinearities as NL
+    r = R(case)
+    D, seed = case["D"], case["seed"]
+    torch.manual_seed(seed)
+    g = torch.Generator().manual_seed(seed)
+    sq = case["squash"]
+    if sq == "sigmoid_learned":
+        squash = NL.Sigmoid(temperature=[1.0, 0.5, 2.0][seed % 3], learn_temperature=True)
+    elif sq == "sigmoid_fixed":
+        squash = NL.Sigmoid(temperature=[1.0, 0.5, 2.0][seed % 3])
+    else:
+        squash = NL.Tanh()
+    lo, hi = (-1.0, 1.0) if sq == "tanh" else (0.0, 1.0)
+    cls = {"rq": NL.PiecewiseRationalQuadraticCDF, "linear": NL.PiecewiseLinearCDF, "quadratic": NL.PiecewiseQuadraticCDF,
+           "cubic": NL.PiecewiseCubicCDF}[case["cdf"]]
+    label = "CompositeCDFTransform(%s, %s)" % (sq, case["cdf"])
+    try:
+        if sq == "tanh":
+            # the piecewise CDFs live on [0, 1]: an affine map in between is part of the "cdf" handed over
+            from nflows import transforms as T
+            cdf = T.CompositeTransform([T.PointwiseAffineTransform(0.5, 0.5), cls([D], num_bins=4),
+                                        T.InverseTransform(T.PointwiseAffineTransform(0.5, 0.5))])
+        else:
+            cdf = cls([D], num_bins=4)
+        model = NL.CompositeCDFTransform(squash, cdf)
+    except Exception as e:
+        r.ev()
+        r.viol("construct", "%s constructor raises" % label, exc=repr(e)[:200])
+        return r.done()
+    # values change after construction, through the caller's handles (what an optimiser step on model.parameters() does when the
+    # composite really holds these objects)
+    with torch.no_grad():
+        for p_ in cdf.parameters():
+            p_.add_(0.5 * torch.randn(p_.shape, generator=g).to(p_.dtype))
+        for n_, p_ in squash.named_parameters():
+            p_.mul_(1.7)
+    model.eval()
+    x = torch.randn(6, D, generator=g, dtype=torch.float64).to(torch.get_default_dtype()) * 1.5
+    det = dict(subject=label, D=D)
+    try:
+        with torch.no_grad():
+            y, l = model(x)
+            a, la = squash(x)
+            b, lb = cdf(a)
+            c, lc = squash.inverse(b)
+    except Exception as e:
+        r.count("composite_cdf_call_raised")
+        r.sample({"subject": label, "error": repr(e)[:200]})
+        return r.done()
+    r.ev(2)
+    r.count("composite_cdf_comparisons", 2)
+    fin = torch.isfinite(c).all(1) & torch.isfinite(y).all(1)
+    err = float((y - c)[fin].abs().max()) if fin.any() else 0.0
+    lerr = float((l - (la + lb + lc))[fin].abs().max()) if fin.any() else 0.0
+    if err > 1e-9 or lerr > 1e-9:
+        r.viol("order", "%s is not squash -> cdf -> squash^-1 of the objects it was given" % label, out_err=err, logabsdet_err=lerr, **det)
+    else:
+        try:
+            with torch.no_grad():
+                xb, lbk = model.inverse(y[fin])
+            r.ev()
+            if float((xb - x[fin]).abs().max()) > 1e-6 * (1 + float(x.abs().max())):
+                r.viol("inverse_order", "%s.inverse does not undo its forward" % label, err=float((xb - x[fin]).abs().max()), **det)
+        except Exception:
+            r.count("composite_cdf_call_raised")
+        r.cell("composite_cdf", sq, case["cdf"], D)
+    r.sample({"subject": label, "out_err": err})
+    return r.done()
+
+
 def run_case(case):
+    if case["kind"] == "composite_cdf":
+        return run_composite_cdf(case)
     if case["kind"] == "multiscale":
         return run_multiscale(case)
     if case["kind"] == "multiscale_ctx":
